@@ -1306,14 +1306,31 @@ func Main(prop string) {
 			a := star(k, exP, true)
 			return shape{name: "corpus:2xstar", n: 2 * k, qs: append(append([]vh.GQuad{}, a.qs...), a.shift(k).qs...)}
 		}
-		for _, s := range []shape{twoStars(9), twoStars(8), twoStars(7), cycle(520, exP), cycle(505, exP), clique(7, exP, false)} {
+		// RDFC-1.0 itself is order-dependent on this 4-quad dataset under SHA-256 (found by the thorough tier):
+		// related hashes record position, predicate and identifier of each related node separately and so
+		// cannot tell which blank nodes share a quad; e0 and e1 tie in the N-degree phase without being
+		// automorphic. Both outcomes are the specification's; the oracles must exempt it, not fail.
+		gq := func(s, o, g int) vh.GQuad {
+			q := edge(s, o, exP)
+			if g >= 0 {
+				t := bn(g)
+				q.G = &t
+			}
+			return q
+		}
+		tie := shape{name: "corpus:rdfc10-non-automorphic-tie", n: 4, qs: []vh.GQuad{gq(0, 1, 3), gq(1, 2, 0), gq(2, 3, -1), gq(3, 0, 1)}}
+		for _, s := range []shape{tie, twoStars(9), twoStars(8), twoStars(7), cycle(520, exP), cycle(505, exP), clique(7, exP, false)} {
 			if strings.HasPrefix(s.name, "corpus") == false {
 				s.name = "corpus:" + s.name
 			}
 			if *tier != "thorough" && (s.name == "corpus:clique" || (s.name == "corpus:cycle" && s.n == 505)) {
 				continue // the near misses are expensive for the model; thorough tier only
 			}
-			h.checkDataset(s.name, "sha256", fromG(s.qs, func(i int) string { return fmt.Sprintf("e%d", i) }), 4)
+			nv := 4
+			if s.name == tie.name {
+				nv = 16
+			}
+			h.checkDataset(s.name, "sha256", fromG(s.qs, func(i int) string { return fmt.Sprintf("e%d", i) }), nv)
 		}
 	}
 	for i := 0; i < n; i++ {
